@@ -26,12 +26,12 @@ import (
 
 type c18Prog struct {
 	Entry   c08Prog `json:"entry"`
-	WKey    int     `json:"wkey"`    // writer's link key
-	RKey    int     `json:"rkey"`    // other reader's link key (made different from wkey)
-	Appends []int   `json:"appends"` // pointer counts of a small log built with the writer key
-	Reopen  int     `json:"reopen"`  // loader used to reopen the log before appending again (index, mod 4)
+	WKey    int     `json:"wkey"`             // writer's link key
+	RKey    int     `json:"rkey"`             // other reader's link key (made different from wkey)
+	Appends []int   `json:"appends"`          // pointer counts of a small log built with the writer key
+	Reopen  int     `json:"reopen"`           // loader used to reopen the log before appending again (index, mod 4)
 	KeyBuf  int     `json:"keyBuf,omitempty"` // how the writer's codec got its key: 0 as usual; 1 from a buffer the caller wipes afterwards; 2 from a buffer into which the caller then loads the other reader's key
-	Opts    int     `json:"opts"`    // CreateEntryOptions of a second write of the entry: bit 0 Pin, bit 1 PreSigned
+	Opts    int     `json:"opts"`             // CreateEntryOptions of a second write of the entry: bit 0 Pin, bit 1 PreSigned
 }
 
 func genC18(t *rapid.T) c18Prog {
@@ -152,6 +152,22 @@ func runC18(tb ev.TB, p c18Prog) ev.Result {
 		}
 		if dn, err := entry.FromMultihashWithIO(ctx, os.API(), eo.GetHash(), provider, noio); err == nil && len(dn.GetNext())+len(dn.GetRefs()) != 0 {
 			tb.Fatalf("reader without a key obtained links from the entry written with %+v", *opts)
+		}
+	}
+	// a copy of the entry written again (an application re-publishing or pinning what it holds): that block is
+	// opaque as well
+	{
+		cs := fakeipfs.NewStore()
+		cc, err := entry.ToMultihashWithIO(ctx, e.Copy(), cs.API(), &iface.CreateEntryOptions{Pin: p.Opts&1 != 0}, wio)
+		if err != nil {
+			tb.Fatalf("writing a copy of the entry failed: %v", err)
+		}
+		for _, c := range cs.Writes() {
+			braw, _ := cs.Raw(c)
+			checkOpaque(tb, braw, all)
+		}
+		if !cc.Equals(e.GetHash()) {
+			tb.Fatalf("a copy of the entry is stored under %s, the entry under %s", cc, e.GetHash())
 		}
 	}
 	// no key
